@@ -40,9 +40,10 @@ Model(r) ==
      Bind(Program(a.body), LAMBDA p :
        LET j  == IF r.k = 0 THEN Len(p) + 1 ELSE r.k + Off(p)
            sc == After(s0, p, a.post, IF j - 1 <= Len(p) THEN j - 1 ELSE Len(p))
+           sr == IF r.k = 0 THEN sc ELSE Restarted(sc)      \* what the fresh process finds after Start
        IN [pts  |-> Points(p),
-           view |-> View(IF r.k = 0 THEN sc ELSE Restarted(sc)),
-           files |-> FileClasses(sc),
+           view |-> View(sr),
+           files |-> FileClasses(sr),
            pre  |-> View(s0),
            goal |-> View(After(s0, p, a.post, Len(p)))])))
 
